@@ -558,3 +558,30 @@ def mutation_sites(fn: ast.AST) -> list:
                     and base(node.func.value) in params:
                 out.append(f"{ast.unparse(node)[:60]}")
     return out
+
+
+def ctor_bindings(call: ast.Call, params: list) -> dict:
+    """parameter name -> unparsed argument expression of a constructor call, given the callee's positional parameter order"""
+    out = {}
+    for name, arg in zip(params, call.args):
+        if isinstance(arg, ast.Starred):
+            raise Untranslatable("starred argument")
+        out[name] = ast.unparse(arg).replace(" ", "")
+    for kw in call.keywords:
+        if kw.arg is None:
+            raise Untranslatable("**kwargs in a constructor call")
+        out[kw.arg] = ast.unparse(kw.value).replace(" ", "")
+    return out
+
+
+def forwards(fn: ast.AST, callee_names: tuple, params: list, expected: dict) -> bool:
+    """every call to one of `callee_names` inside fn binds each option in `expected` to one of the accepted expressions"""
+    calls = [n for n in ast.walk(fn) if isinstance(n, ast.Call) and ast.unparse(n.func).replace(" ", "") in callee_names]
+    if not calls:
+        raise Untranslatable(f"no call to {callee_names}")
+    for c in calls:
+        b = ctor_bindings(c, params)
+        for opt, accepted in expected.items():
+            if b.get(opt) not in accepted:
+                return False
+    return True
